@@ -97,3 +97,19 @@ def detached(out):
     """True when a simulation result is the harness' own 'cannot attach' condition (=> inconclusive, never a verdict)."""
     from gateways.harness import HarnessDetached
     return isinstance(out, HarnessDetached)
+
+
+def probe_attach(driver):
+    """Connect once in a fault-free simulation; returns None when the harness can observe the driver, else a reason."""
+    import random
+    sim = Sim(driver, Picker(random.Random(0)))
+
+    async def main(sim):
+        await sim.connect()
+        return True
+    out, stalled = sim.run(main)
+    ok = sim.attached()
+    sim.close()
+    if not ok:
+        return f"harness detached: the {driver} driver never touched the shimmed I/O boundary"
+    return None
